@@ -52,8 +52,14 @@ class ArrS:
             return self._shape
         raise AttributeError(name)
 
+    refuses = False  # when set: NumPy refuses the new shape (the trial assignment raises ValueError)
+
     def __sym_setattr__(self, interp, name, v):
         self.log.append(("data.shape=", v))
+        if self.refuses:
+            from pyvc.interp import ExcInst
+
+            raise SymRaise(ExcInst(ValueError, ("cannot reshape array",)))
         self._shape = v if False else self._shape  # the trial assignment is undone by the setter itself; the model keeps the old shape
 
 
@@ -62,7 +68,7 @@ class Node:
         self.tensor, self.placeholder, self.parent = tensor, placeholder, parent
 
 
-def harness(depth, nviews, pos):
+def harness(depth, nviews, pos, prior_grad=False, refused=False):
     """depth: 0 = t owns its memory, 1 = view of the owner, 2 = view of a view; nviews: recorded views below t (chain); pos: index of t among
     its parent's children (siblings before/after)"""
 
@@ -89,6 +95,10 @@ def harness(depth, nviews, pos):
         mid = mk("mid", _base=owner, _creator=Creator(owner)) if depth == 2 else None
         parent = None if depth == 0 else (owner if depth == 1 else mid)
         t = mk("t", _base=owner, _creator=Creator(parent) if parent is not None else None)
+        if prior_grad:
+            # t still holds the gradient (and a cached view-gradient) of an earlier backward pass: the shape assignment is an in-place update,
+            # the old gradient goes first (C07) -- before the placeholder graph is built, which cannot stand in for a tensor with a gradient
+            t.fields["_grad"], t.fields["_view_grad"] = Opaque("t.grad of an earlier backward pass"), Opaque("t's cached view gradient")
         ph = mk("placeholder(t)", _base=owner, _creator=t.fields["_creator"])
         sib = [mk(f"sibling{i}", _base=owner) for i in range(2)]
         if parent is not None:
@@ -107,7 +117,7 @@ def harness(depth, nviews, pos):
 
         class Graph:
             def __init__(self_, root):
-                log.append(("graph", root))
+                log.append(("graph", root, root.fields.get("_grad"), root.fields.get("_view_grad")))
                 self_.base = nodes[0]
 
             def __sym_iter__(self_, interp_):
@@ -143,13 +153,30 @@ def harness(depth, nviews, pos):
 
         cfg.summaries[f"{TB}:Tensor._replay_op"] = replay
         setter = T.lookup(interp, "shape")[0].fset
-        tag = f"C04.shape[depth={depth},views={nviews},pos={pos}]"
-        meta = dict(function=f"{TB}:Tensor.shape.setter", depth=depth, views=nviews, position=pos)
+        tag = f"C04.shape[depth={depth},views={nviews},pos={pos}" + (",grad=some]" if prior_grad else "]")
+        meta = dict(function=f"{TB}:Tensor.shape.setter", depth=depth, views=nviews, position=pos, prior_grad=prior_grad)
+        if refused:
+            # C13: a shape that NumPy refuses leaves no trace -- the same exception comes out, the gradient / cached view-gradient / base link the
+            # tensor held are what they were, no placeholder graph was built, nothing mirrored or rerouted
+            t.fields["data"].refuses = True
+            before = dict(t.fields)
+            try:
+                interp.call(setter, [t, (5, 7)], {})
+                ctx.oblige(f"C13.shape[depth={depth},views={nviews},pos={pos},grad={'some' if prior_grad else 'none'}].refused_shape_raises", False, **meta)
+                return
+            except SymRaise as e:
+                ctx.oblige(f"C13.shape[depth={depth},views={nviews},pos={pos},grad={'some' if prior_grad else 'none'}].refused_shape_raises", e.exc.cls is ValueError, **meta)
+            same = all(t.fields.get(k_) is v_ for k_, v_ in before.items()) and set(t.fields) == set(before)
+            ctx.oblige(f"C13.shape[depth={depth},views={nviews},pos={pos},grad={'some' if prior_grad else 'none'}].refused_shape_leaves_no_trace", same and not [e for e in log if e[0] in ("graph", "mirror", "reroute", "append")], **meta)
+            return
         try:
             interp.call(setter, [t, (3, 2)], {})
         except SymRaise as e:
             ctx.oblige(f"{tag}.no_exception", False, raised=e.exc.cls_name(), **meta)
             return
+        graphs = [e for e in log if e[0] == "graph"]
+        ctx.oblige(f"C07.shape[depth={depth},views={nviews},pos={pos},grad={'some' if prior_grad else 'none'}].gradient_nulled_before_the_placeholder_graph_is_built",
+                   len(graphs) == 1 and graphs[0][1] is t and graphs[0][2] is None and graphs[0][3] is None, **meta)
         mirrors = [e for e in log if e[0] == "mirror"]
         reroutes = [e for e in log if e[0] == "reroute"]
         appends = [e for e in log if e[0] == "append"]
@@ -194,18 +221,19 @@ def obligations(tier="quick"):
     for depth in (0, 1, 2):
         for nviews in (0, 1, 2):
             for pos in ((0,) if depth == 0 else (0, 1, 2)):
-                name = f"shape[{depth},{nviews},{pos}]"
-                results = explore(harness(depth, nviews, pos))
-                k = 0
-                for r in results:
-                    if r.outcome == "unsupported":
-                        info["unsupported"].append(f"{name}: {r.value}")
-                        continue
-                    k += 1
-                    for o in r.ctx.obligations:
-                        o.name = f"{o.name}.p{k}"
-                        out.append(o)
-                info["paths"] += k
-                if k == 0:
-                    info["unsupported"].append(f"{name}: no completed path")
+                for prior_grad in (False, True):
+                    name = f"shape[{depth},{nviews},{pos},{prior_grad}]"
+                    results = explore(harness(depth, nviews, pos, prior_grad)) + (explore(harness(depth, nviews, pos, prior_grad, refused=True)) if nviews == 0 else [])
+                    k = 0
+                    for r in results:
+                        if r.outcome == "unsupported":
+                            info["unsupported"].append(f"{name}: {r.value}")
+                            continue
+                        k += 1
+                        for o in r.ctx.obligations:
+                            o.name = f"{o.name}.p{k}"
+                            out.append(o)
+                    info["paths"] += k
+                    if k == 0:
+                        info["unsupported"].append(f"{name}: no completed path")
     return out, info
